@@ -198,6 +198,11 @@ def run(ctx):
         ctx.sample({k: ln[k] for k in ("sec", "nf", "pto", "ren", "fact", "intrinsic", "labels", "c", "observed")})
     bad = ctx.tlc_validate_sharded("Trace_C05", "Trace.cfg", [{k: v for k, v in ln.items() if k != "note"} for ln in lines])
     by = {ln["oid"]: (o, ln) for o, ln in zip(obls, lines)}
+    good = [{k: v for k, v in ln.items() if k != "note"} for ln in lines if ln["oid"] not in bad and ln["pto"] >= 2]
+    ctx.selftest("Trace_C05", "Trace.cfg", good, [
+        ("entry", lambda l: dict(l, observed=[[e[0], e[1], e[2], [e[3][0] + 1, e[3][1]], e[4]] for e in l["observed"][:1]] + l["observed"][1:])),
+        ("keys", lambda l: dict(l, observed=l["observed"][1:])),
+        ("shape", lambda l: dict(l, shape_ok=False))])
     for oid, clause in bad.items():
         o, ln = by[oid]
         key = f"inject:{ln['sec']}:nf{ln['nf']}:pto{ln['pto']}:ren{int(ln['ren'])}:fact{int(ln['fact'])}:intr{int(ln['intrinsic'])}:{clause}"
